@@ -12,6 +12,7 @@ import (
 	"encoding/json"
 	"fmt"
 	"os"
+	"runtime"
 	"runtime/debug"
 	"sort"
 	"strconv"
@@ -37,19 +38,20 @@ type workerArgs struct {
 }
 
 type ReplayFile struct {
-	Property  string              `json:"property"`
-	Clause    string              `json:"clause"`
-	Sig       string              `json:"sig"`
-	Detail    string              `json:"detail"`
-	Seed      uint64              `json:"seed"`
-	Run       uint64              `json:"run"`
-	Tier      string              `json:"tier"`
-	Race      bool                `json:"race_binary"`
-	Tape      map[string][]uint32 `json:"tape"`
-	Minimised bool                `json:"minimised"`
-	OrigLen   int                 `json:"original_tape_len"`
-	Case      interface{}         `json:"case,omitempty"`
-	Log       []string            `json:"event_log,omitempty"`
+	Property   string              `json:"property"`
+	Clause     string              `json:"clause"`
+	Sig        string              `json:"sig"`
+	Detail     string              `json:"detail"`
+	Seed       uint64              `json:"seed"`
+	Run        uint64              `json:"run"`
+	Tier       string              `json:"tier"`
+	Race       bool                `json:"race_binary"`
+	GoMaxProcs int                 `json:"gomaxprocs,omitempty"`
+	Tape       map[string][]uint32 `json:"tape"`
+	Minimised  bool                `json:"minimised"`
+	OrigLen    int                 `json:"original_tape_len"`
+	Case       interface{}         `json:"case,omitempty"`
+	Log        []string            `json:"event_log,omitempty"`
 }
 
 type foundViolation struct {
@@ -244,7 +246,7 @@ func workerBatch(t *testing.T, a workerArgs) int {
 					// a few more instances of the same shape, as recorded (not minimised): should the first one
 					// turn out not to reproduce in a fresh process, the driver tries these
 					rec := tp.Recorded()
-					alt := ReplayFile{Property: a.Prop, Clause: v.Clause, Sig: v.Sig, Detail: v.Detail, Seed: a.Seed, Run: idx, Tier: a.Tier, Race: raceBuild,
+					alt := ReplayFile{Property: a.Prop, Clause: v.Clause, Sig: v.Sig, Detail: v.Detail, Seed: a.Seed, Run: idx, Tier: a.Tier, Race: raceBuild, GoMaxProcs: runtime.GOMAXPROCS(0),
 						OrigLen: len(rec[0]) + len(rec[1]) + len(rec[2]), Tape: tapeToMap(rec)}
 					name := fmt.Sprintf("%s/%s-%s-%d-%d%s.json", a.ReplayDir, a.Prop, sanitize(v.Clause), a.Seed, idx, map[bool]string{true: "-race", false: ""}[raceBuild])
 					writeJSON(name, alt)
@@ -255,7 +257,7 @@ func workerBatch(t *testing.T, a workerArgs) int {
 			fv := &foundViolation{Violation: v, Run: idx, Count: 1}
 			seenV[key] = fv
 			rec := tp.Recorded()
-			rf := ReplayFile{Property: a.Prop, Clause: v.Clause, Sig: v.Sig, Detail: v.Detail, Seed: a.Seed, Run: idx, Tier: a.Tier, Race: raceBuild,
+			rf := ReplayFile{Property: a.Prop, Clause: v.Clause, Sig: v.Sig, Detail: v.Detail, Seed: a.Seed, Run: idx, Tier: a.Tier, Race: raceBuild, GoMaxProcs: runtime.GOMAXPROCS(0),
 				OrigLen: len(rec[0]) + len(rec[1]) + len(rec[2])}
 			if minimised < a.MaxMin {
 				minimised++
